@@ -6,6 +6,7 @@ import (
 	"errors"
 	"fmt"
 	"os"
+	"runtime"
 	"strings"
 
 	"github.com/rqlite/rqlite/v10/db"
@@ -217,6 +218,7 @@ func (st *c06State) afterAttempt(e *walsim.Engine, a *walsim.Attempt) {
 // checkpointed image and logical dump.
 func (st *c06State) compare(e *walsim.Engine, a *walsim.Attempt, segLen int) {
 	c := st.c
+	defer runtime.GC() // workers run with GOGC=off; keep the heap small
 	got, err := os.ReadFile(st.rebuilt)
 	if err != nil {
 		c.Violate("harness-io", "%v", err)
